@@ -1,9 +1,10 @@
 use crate::engine::Property;
 
+pub mod c13;
 pub mod c19;
 
 pub fn all() -> Vec<Box<dyn Property>> {
-	vec![Box::new(c19::C19)]
+	vec![Box::new(c13::C13), Box::new(c19::C19)]
 }
 
 pub fn lookup(id: &str) -> Option<Box<dyn Property>> {
